@@ -2,9 +2,9 @@ SPECIFICATION Spec
 CONSTANTS MaxNodes = 4
 MaxDepth = 3
 DocMode = FALSE
-Vocab <- VocabSelect
+Vocab <- VocabNeg
 TextKinds <- TK3
-OptSets <- Opts4
-Bugs <- NoBugs
-INVARIANTS BuilderSound DesignRefines EmitQuarter
+OptSets <- Opts1
+Bugs <- BugOptgroup
+INVARIANTS BuilderSound DesignRefines
 CHECK_DEADLOCK FALSE
